@@ -123,7 +123,17 @@ def run(tier, seed):
             k = calls[0] if calls else 0
             vecs, complete = P.seed_vectors(rng, k, exh, 24) if k else ([None], True)
             ctx.count("seed-enumeration-complete" if complete else "seed-enumeration-sampled")
-            for bv in vecs:
+            todo = [(p, c, style, bv) for bv in vecs]
+            if rng.random() < 0.35:
+                # a parameter sweep right after: the same member rescaled in steps of 1e-6 .. 1e-3 (still inside the family) -
+                # consecutive requests that are nearly, not exactly, equal
+                step = float(rng.choice([1e-3, 2e-4, 3e-5, 1e-6]))
+                sgn = -1.0 if float(np.abs(c).sum()) > 0.5 else 1.0
+                for kk in (1, 2, 3):
+                    fac = 1.0 + sgn * kk * step
+                    todo.append(([float(x) * fac for x in p], np.asarray(c, dtype=float) * fac, style + "/sweep-step", vecs[int(rng.integers(0, len(vecs)))]))
+                ctx.count("sweep-after-member")
+            for p, c, style, bv in todo:
                 try:
                     with core.quiet(), P.forced_seed(bv):
                         ph = [float(x) for x in A.QuantumSignalProcessingPhases(list(p), signal_operator=so)]
